@@ -61,6 +61,9 @@ let run_solo c cfg t =
     | None -> (cfg, List.rev acc)
   in go cfg [] 0
 
+(* which object an access touches (Extract/Locs.v): set for the machines that have a location function *)
+let loc_fn : (Obj.t -> (nat * (nat * nat))) option ref = ref None
+
 let opt_int_early opts k d = match List.assoc_opt k opts with Some v -> (try int_of_string v with _ -> d) | None -> d
 let mismatches = ref 0
 let total_runs = ref 0
@@ -79,6 +82,7 @@ let process_runs (type sh ts l op ret) (c : (sh, ts, l, op, ret) comp) (s : scn)
   let continue = ref true in
   let choices = ref [] in
   let kline = ref [] in
+  let lline = ref [] in
   let cur_n = ref "" and sline = ref [] and cline = ref "" and hline = ref "" and fline = ref None
   and aline = ref None and vline = ref None in
   let finish_run () =
@@ -106,6 +110,9 @@ let process_runs (type sh ts l op ret) (c : (sh, ts, l, op, ret) comp) (s : scn)
             Buffer.add_string buf (Printf.sprintf " FAULT%d" t)) evs in
     let kinds = Array.of_list !kline in
     let kind_bad = ref None in
+    let locs = Array.of_list !lline in
+    let loc_bad = ref None in
+    let m2i : (int * int * int, int) Hashtbl.t = Hashtbl.create 64 and i2m : (int, int * int * int) Hashtbl.t = Hashtbl.create 64 in
     let rec go cfg sched pos =
       match sched with
       | [] -> Ok cfg
@@ -120,6 +127,29 @@ let process_runs (type sh ts l op ret) (c : (sh, ts, l, op, ret) comp) (s : scn)
                 if mk <> 0 && mk <> kinds.(pos) then kind_bad := Some (pos, kinds.(pos), mk)
               | None -> ())
            | None -> ());
+        (* the object the implementation touched here vs the location of the model step: same object <-> same location *)
+        (match !loc_fn with
+         | Some f when !loc_bad = None && pos < Array.length locs && locs.(pos) <> 0 ->
+           (match List.nth_opt cfg.c_thr (t + 1) with
+            | Some th ->
+              (match view c.mach th with
+               | Some ((_, l), _) ->
+                 let (tg, (a, b)) = f (Obj.repr l) in
+                 let key = (int_of_nat tg, int_of_nat a, int_of_nat b) in
+                 let (tg', _, _) = key in
+                 if tg' <> 0 then begin
+                   let il = locs.(pos) in
+                   (match Hashtbl.find_opt m2i key with
+                    | Some i when i <> il -> loc_bad := Some (pos, Printf.sprintf "the model step touches a location (%d,%d,%d) last seen as object #%d, the implementation touches object #%d" tg' (int_of_nat a) (int_of_nat b) i il)
+                    | Some _ -> ()
+                    | None ->
+                      (match Hashtbl.find_opt i2m il with
+                       | Some (t2, a2, b2) -> loc_bad := Some (pos, Printf.sprintf "the implementation touches object #%d again (model location (%d,%d,%d)) where the model touches a different location (%d,%d,%d)" il t2 a2 b2 tg' (int_of_nat a) (int_of_nat b))
+                       | None -> Hashtbl.add m2i key il; Hashtbl.add i2m il key))
+                 end
+               | None -> ())
+            | None -> ())
+         | _ -> ());
         (match replay_step c.mach fuel cfg (nat_of_int (t + 1)) with
          | Some (cfg', evs) ->
            (* coverage only: redo the step one access at a time to see the silent pcs too *)
@@ -155,6 +185,10 @@ let process_runs (type sh ts l op ret) (c : (sh, ts, l, op, ret) comp) (s : scn)
        (match !kind_bad with
         | Some (pos, ik, mk) -> report "access-kind" (Printf.sprintf "|access #%d is of kind %d in the implementation, %d in the model" pos ik mk)
         | None -> ())
+     | Ok _ when !loc_bad <> None ->
+       (match !loc_bad with
+        | Some (pos, what) -> report "access-location" (Printf.sprintf "|access #%d: %s" pos what)
+        | None -> ())
      | Ok cfg ->
        if model_h <> impl_h then report "history" ""
        else (match !fline, !aline with
@@ -180,7 +214,7 @@ let process_runs (type sh ts l op ret) (c : (sh, ts, l, op, ret) comp) (s : scn)
       let n = String.length line in
       if n >= 4 && String.sub line 0 4 = "RUN " then begin
         cur_n := List.nth (split_ws line) 2;
-        sline := []; kline := []; cline := ""; hline := ""; fline := None; aline := None; vline := None
+        sline := []; kline := []; lline := []; cline := ""; hline := ""; fline := None; aline := None; vline := None
       end
       else if n >= 1 && line.[0] = 'S' && (n = 1 || line.[1] = ' ') then
         (let toks = split_ws (String.sub line 1 (n - 1)) in
@@ -190,6 +224,8 @@ let process_runs (type sh ts l op ret) (c : (sh, ts, l, op, ret) comp) (s : scn)
              | Some i -> Some (int_of_string (String.sub tok (i + 1) (String.length tok - i - 1))) | None -> None) toks)
       else if n >= 1 && line.[0] = 'K' && (n = 1 || line.[1] = ' ') then
         kline := List.map int_of_string (split_ws (String.sub line 1 (n - 1)))
+      else if n >= 1 && line.[0] = 'L' && (n = 1 || line.[1] = ' ') then
+        lline := List.map int_of_string (split_ws (String.sub line 1 (n - 1)))
       else if n >= 1 && line.[0] = 'C' && (n = 1 || line.[1] = ' ') then
         cline := String.trim (String.sub line 1 (n - 1))
       else if n >= 1 && line.[0] = 'H' && (n = 1 || line.[1] = ' ') then
@@ -397,12 +433,15 @@ let () =
          (match !cur with
           | Some (id, kind, opts) ->
             let s = { id; kind; opts; pre = !pre; threads = !threads } in
+            loc_fn := None;
             (match kind with
              | "jdk" -> process_runs jdk_comp s ic
              | "mutex" -> process_runs mutex_comp s ic
              | "jdkadd" ->
+               loc_fn := Some (fun o -> striped_loc (Obj.obj o));
                process_runs (adder_comp (jdk_adder (zint (opt_int opts "maxcells" 2))) striped_init striped_kind) s ic
              | "jdkf" ->
+               loc_fn := Some (fun o -> striped_loc (Obj.obj o));
                process_runs (adder_comp (jdk_f64_adder (zint (opt_int opts "maxcells" 2))) striped_init striped_kind) s ic
              | "rc" -> process_runs (adder_comp rc_adder (fun _ pre -> rinit (nat_of_int 128) (List.map zint pre)) rc_kind) s ic
              | "atomic" -> process_runs (adder_comp atomic_adder (fun _ _ -> Z0) atomic_kind) s ic
